@@ -108,6 +108,8 @@ def p_obligations(tier):
                 continue          # Jigg XML spells English features as [f=true]: categories do not read back (outside the statement)
             for n in (2, 3):
                 nlex = (6 if n == 2 else 4) if q else 8
+                if lang == 'en' and n == 2:
+                    yield Obligation('C12.reader[en,%s,n=2,lexicon of the listed special rules]' % fmt, 'h_reader', dict(lang='en', n=2, nlex='special', fmt=fmt, corrupt=False), cost=8)
                 for corrupt in (False, True):
                     if corrupt and n == 3:
                         continue
